@@ -82,9 +82,18 @@ def render(grammar) -> str:
     out = [HEADER]
     for r in grammar["rules"]:
         memo = " (memo)" if r["memo"] else ""
-        out.append(f"{r['name']}{memo}:")
-        for i, a in enumerate(r["alts"]):
-            out.append("    | " + render_alt(a, r["name"], i))
+        alts = [render_alt(a, r["name"], i) for i, a in enumerate(r["alts"])]
+        # the three layouts of the grammar notation, chosen per rule (all are the same ordered choice):
+        # every alternative on its own `|` line; everything on the header line; first alternative on the header line, the rest below
+        layout = (len(out) + len(alts)) % 3 if len(alts) > 1 else 0
+        if layout == 1:
+            out.append(f"{r['name']}{memo}: " + " | ".join(alts))
+        elif layout == 2:
+            out.append(f"{r['name']}{memo}: " + alts[0])
+            out.extend("    | " + a for a in alts[1:])
+        else:
+            out.append(f"{r['name']}{memo}:")
+            out.extend("    | " + a for a in alts)
         out.append("")
     return "\n".join(out)
 
